@@ -45,7 +45,10 @@ RULE = ("segment tables of 0..25 rows (classes autosome / X / Y / PAR-X / PAR-Y 
         "option name -- in 40 % of the files the table looks like the OTHER sex, so the stated one must win, and with the "
         "sex left out the files may disagree, so each must be treated with the sex inferred from IT --, -i LABEL / -i '' / "
         "--label-genes / both / neither, --show in its three values or left out, --ploidy left out; the model is told "
-        "only what guess_xx infers per file. non-trivial = non-empty input; distinct by hash of the case")
+        "only what guess_xx infers per file.  CONFIDENCE LIMITS (op export_vcf_ci, 90 cases in the quick tier, 1 in 6 through "
+        "commands.parse_args): 1..12 segments with ci_left / ci_right stated per row (margin 0, 1, 0..9, anywhere in the "
+        "segment, half / a third of it, the whole segment, 1..5 outside it), every representation above; CIPOS / CIEND of "
+        "each record compared as four integers. non-trivial = non-empty input; distinct by hash of the case")
 EXHAUSTIVE = {"quick": False, "thorough": False}
 ASSUMPTIONS = [
     "ratio space: the model receives the exact value of the double 2**log2; r*t in floats is covered by the knife-edge "
@@ -61,11 +64,17 @@ ASSUMPTIONS = [
     "parameters (C01's / C15's subjects) whose argument lists are checked textually; Python's float formatting inside the "
     "INFO f-strings is a parameter",
     "vcf with confidence limits (cnarr / --cnr, or ci_left + ci_right columns): each record additionally carries "
-    "CIPOS and CIEND after the seven modelled INFO keys; the adapter checks that they are there and drops them, their "
-    "values are outside the property's text and the model",
+    "CIPOS and CIEND after the seven modelled INFO keys; op export_vcf (and the --cnr path, whose limits come from "
+    "assign_ci_start_end / by_ranges) checks that they are there and drops them; op export_vcf_ci (round 5, ci_left + "
+    "ci_right columns stated by the case) compares their four integers with Model/ExportCiExt5.lean -- the model "
+    "mirrors the code as it is (limits shifted over the rows of the table, `end - ci_right` printed unsigned), the "
+    "property's text says nothing about these two fields",
+    "export_vcf_ci: the table has at least one row (on an empty table with ci_left / ci_right pandas refuses the "
+    "shifted column: ValueError)",
 ]
 TRUSTED_EXTRA = ["harness/exprtrans.py class RowFn: the ROW-wise reading of column-wise pandas code (rules at the top of the file)",
                  "pandas boolean-mask selection, Series.replace, concat, itertuples, to_csv as modelled in Model/Export.lean",
+                 "harness/colread_c20ci.py: the COLUMN-wise reading of the confidence-limit block of segments2vcf (rules at the top of the file)",
                  "harness parsing of the VCF / BED / SEG / TSV text into fields (split on tab, ';', '=', ':')",
                  "tabio.read (tab format) on sorted finite input is the identity (checked per case by the adapter)",
                  "argparse: an option string reaches the command function as the attribute the parser declares"]
